@@ -900,7 +900,11 @@ pub fn main(args: &[String]) -> i32 {
     while i < max_runs && Instant::now() < deadline {
         let s = rng::hash3(seed, shard, i);
         i += 1;
-        let case = regress.next().unwrap_or_else(|| gen_case(s));
+        let next = regress.next();
+        if next.is_none() && a.get("only-regress").is_some() {
+            break;
+        }
+        let case = next.unwrap_or_else(|| gen_case(s));
         runs += 1;
         steps += case.acts.len() as u64;
         let _ = crate::panics::take();
